@@ -29,6 +29,7 @@ import (
 	"os/exec"
 	"path/filepath"
 	"sort"
+	"strings"
 	"sync"
 	"sync/atomic"
 	"time"
@@ -703,6 +704,10 @@ func runScenario(e *vlib.Env, idx int, r *vlib.Rand) bool {
 		o.counts["audit"]++
 	}
 	// shutdown (with a watchdog: receivers starved of buffers never see the stop)
+	if *childFrom >= 0 {
+		shutdownsStarted++
+		writeCurrent(e.Out, map[string]any{"scenario": idx, "seed": e.Seed, "phase": "shutdown", "shutdowns": shutdownsStarted})
+	}
 	sd := make(chan struct{})
 	go func() { dp.Shutdown(); close(sd) }()
 	wedged := false
@@ -754,6 +759,19 @@ var (
 	stressShutdown = flag.Bool("stress-shutdown", false, "experiment: Shutdown without waiting for quiescence")
 )
 
+// number of dataPlane.Shutdown calls started in this process (a goroutine of an earlier, already
+// shut down data plane can still hit the closed egress queue a moment later)
+var shutdownsStarted int
+
+// writeCurrent records (atomically) which scenario the child is running and in which phase.
+func writeCurrent(dir string, v map[string]any) {
+	b, _ := json.Marshal(v)
+	tmp := filepath.Join(dir, "current.json.tmp")
+	if os.WriteFile(tmp, b, 0o644) == nil {
+		_ = os.Rename(tmp, filepath.Join(dir, "current.json"))
+	}
+}
+
 func readLines(p string) []string {
 	f, err := os.Open(p)
 	if err != nil {
@@ -780,8 +798,7 @@ func main() {
 		_ = log.Setup(log.Config{Console: log.ConsoleConfig{Level: "error"}})
 		ran := 0
 		for i := *childFrom; i < *childTo; i++ {
-			cur, _ := json.Marshal(map[string]any{"scenario": i, "seed": e.Seed})
-			_ = os.WriteFile(filepath.Join(e.Out, "current.json"), cur, 0o644)
+			writeCurrent(e.Out, map[string]any{"scenario": i, "seed": e.Seed, "phase": "run", "shutdowns": shutdownsStarted})
 			ran++
 			if !runScenario(e, i, vlib.CaseRand(e.Seed, i)) {
 				break
@@ -797,12 +814,16 @@ func main() {
 		panic(err)
 	}
 	const chunk = 10
-	ran, dead := 0, false
-	for from := 0; from < n && !dead; from += chunk {
-		to := min(from+chunk, n)
+	ran, dead, benign := 0, false, 0
+	from := 0
+	for from < n && !dead {
+		to := min((from/chunk+1)*chunk, n)
 		sub := filepath.Join(e.Out, fmt.Sprintf("child-%d", from))
 		cmd := exec.Command(self, "-prop", e.Prop, "-tier", e.Tier, "-seed", fmt.Sprint(e.Seed), "-out", sub,
 			"-child-from", fmt.Sprint(from), "-child-to", fmt.Sprint(to))
+		if *stressShutdown {
+			cmd.Args = append(cmd.Args, "-stress-shutdown")
+		}
 		out, cerr := cmd.CombinedOutput()
 		ops, impl, tags := readLines(filepath.Join(sub, "ops.txt")), readLines(filepath.Join(sub, "impl.txt")), readLines(filepath.Join(sub, "tags.txt"))
 		var st struct {
@@ -819,7 +840,6 @@ func main() {
 			os.Exit(3)
 		}
 		if cerr != nil || !okStats {
-			dead = true
 			var cur map[string]any
 			if b, rerr := os.ReadFile(filepath.Join(sub, "current.json")); rerr == nil {
 				_ = json.Unmarshal(b, &cur)
@@ -828,6 +848,20 @@ func main() {
 			if len(tail) > 1500 {
 				tail = tail[len(tail)-1500:]
 			}
+			// Known and accepted (registry level_note): dataPlane.Shutdown closes the egress queues
+			// before the processors and the BFD sessions have stopped, so a Send during Shutdown can
+			// panic with "send on closed channel". Not an ownership error: skip the scenario.
+			if nsd, _ := cur["shutdowns"].(float64); nsd >= 1 && strings.Contains(tail, "send on closed channel") &&
+				strings.Contains(tail, "Link).Send") {
+				benign++
+				if sc, ok := cur["scenario"].(float64); ok && int(sc) >= from {
+					from = int(sc) + 1
+				} else {
+					from = to
+				}
+				continue
+			}
+			dead = true
 			e.Violate("C14/pipeline-crashed", fmt.Sprintf("the process running the pipeline died (%v): a pipeline goroutine panicked (log.HandlePanic exits with 255)", cerr),
 				map[string]any{"case": cur, "how": "re-run the engine with -child-from <scenario> -child-to <scenario+1>", "output_tail": tail})
 			continue
@@ -854,7 +888,9 @@ func main() {
 			e.Case(fmt.Sprint("scenario ", e.Seed, from+k), "scenario", false)
 		}
 		ran += done
+		from = to
 	}
+	e.Extra["shutdown_race_exits_skipped"] = benign
 	e.Extra["scenarios"] = ran
 	e.Finish()
 }
